@@ -32,10 +32,11 @@ def make_case(R, groups, wf=True):
 
 
 def note_lines(rng, m):
-    """m in 0..31: lane mask, 0 = open."""
+    """m in 0..31: lane mask, 0 = open.  Sustains (also different per lane) must not influence the decision."""
+    sus = rng.choice([0, 0, 0, 48, 144, 1000])
     if m == 0:
-        return [(7, 0)]
-    return [(i, 0) for i in range(5) if (m >> i) & 1]
+        return [(7, sus)]
+    return [(i, sus + (7 * i if rng.random() < 0.2 and sus else 0)) for i in range(5) if (m >> i) & 1]
 
 
 def gen(rng, R):
